@@ -381,7 +381,7 @@ func replay(in *core.Lines, args []string, seed int64, sum *core.Summary) error 
 		if c.Degen {
 			sum.Count("programs_degenerate", 1)
 		}
-		if c.Only == nil && (c.Cls == "optimal" && c.NCost >= 3 || c.Cls == "unbounded") {
+		if c.Only == nil && !c.Excl && (c.Cls == "optimal" && c.NCost >= 3 || c.Cls == "unbounded") {
 			c2 := c
 			c2.FB, c2.OB = nil, nil
 			sum.Sample(c2)
